@@ -154,6 +154,9 @@ var importBases = []string{"http", "io", "sync", "x", "ret", "a", "src", "mocks"
 
 // identifiers for parameters and for scope operations
 var nameBases = []string{"a", "ret", "http", "io", "x", "s", "n", "err", "src", "string", "error", "client", "t", "sync", "_m", "A"}
+
+// prefixes of the drawn histories: a template may pass any string, also a Go keyword
+var focusBases = append(append([]string{}, nameBases...), "type", "func", "range")
 var nameSuffixes = []string{"", "", "", "1", "1", "2", "3", "0", "10", "11", "12", "01"}
 
 // strings that are not identifiers but are made visible by AddVar (type strings); queried only
@@ -276,7 +279,7 @@ func gen(t *rapid.T) Case {
 	// the names this history concentrates on: a few bases with their digit-suffixed variants, the
 	// target's own variable names and the package names its types use (all are identifiers)
 	pool := map[string]bool{}
-	for _, b := range rapid.SliceOfNDistinct(rapid.SampledFrom(nameBases), 1, 3, rapid.ID[string]).Draw(t, "focus") {
+	for _, b := range rapid.SliceOfNDistinct(rapid.SampledFrom(focusBases), 1, 3, rapid.ID[string]).Draw(t, "focus") {
 		for _, s := range []string{"", "1", "2", "3", "10", "11"} {
 			pool[b+s] = true
 		}
